@@ -46,7 +46,7 @@ func vrlBase(d string) int {
 	return 101
 }
 func vrlVal(d string, id int) byte { return byte((id*37 + vrlBase(d)) & 0xff) }
-func vrlID(d string, v byte) int  { return ((int(v) - vrlBase(d) + 512) * 173) & 0xff }
+func vrlID(d string, v byte) int   { return ((int(v) - vrlBase(d) + 512) * 173) & 0xff }
 
 // vrlIsPrefix: b is exactly the bytes 1..len(b) of direction d
 func vrlIsPrefix(d string, b []byte) bool {
@@ -71,10 +71,11 @@ type vrlOpaque struct{ s string }
 func (e *vrlOpaque) Error() string { return e.s }
 
 // vrlMkErr builds the error a connection returns for (kind, wrapping) on operation op.
-//   wrapping "op"   *net.OpError{Op, Net:"tcp", Source: local, Addr: remote, Err: os.NewSyscallError(op, errno)}
-//                   - the shape the Go network stack produces for read/write (both endpoints in the text)
-//            "oploc" the same with the local address only (the real shape for SetDeadline / Close)
-//            "sys"  os.SyscallError alone      "bare" the errno alone     "fmt" fmt.Errorf("...: %w", <op shape>)
+//
+//	wrapping "op"   *net.OpError{Op, Net:"tcp", Source: local, Addr: remote, Err: os.NewSyscallError(op, errno)}
+//	                - the shape the Go network stack produces for read/write (both endpoints in the text)
+//	         "oploc" the same with the local address only (the real shape for SetDeadline / Close)
+//	         "sys"  os.SyscallError alone      "bare" the errno alone     "fmt" fmt.Errorf("...: %w", <op shape>)
 func vrlMkErr(kind, wrap, op string, local, remote net.Addr) error {
 	if kind == "nil" || kind == "" {
 		return nil
@@ -328,6 +329,7 @@ type vrlGated struct {
 	exited  map[string]bool
 	ret     bool
 	started bool
+	joined  chan struct{} // closed once wg.Wait() can return (both halves have called wg.Done)
 }
 
 func vrlNewGated() *vrlGated {
@@ -346,6 +348,8 @@ var vrlDiscardLogger = log.New(io.Discard, "", 0)
 func (w *vrlGated) start() {
 	w.started = true
 	w.wg.Add(2)
+	w.joined = make(chan struct{})
+	go func() { w.wg.Wait(); close(w.joined) }()
 	w.ps.addSession()
 	run := func(d string, src, dst *vrlConn, tag string) {
 		w.gidMu.Lock()
@@ -408,7 +412,27 @@ func (w *vrlGated) project() map[string]any {
 	if w.exited["down"] {
 		kd = atomic.LoadInt64(&w.ps.completeBytesDown)
 	}
-	return map[string]any{"du": du, "dd": dd, "fu": fu, "fd": fd, "ku": ku, "kd": kd,
+	// could Proxy's wg.Wait() return now?  Both halves signal it last (after Close(dst) returned), so before both have
+	// exited it must still block; the watcher goroutine gets a moment to run where it matters (a half parked at Close)
+	join := false
+	if w.joined != nil {
+		grace := time.Duration(0)
+		if w.exited["up"] && w.exited["down"] {
+			grace = time.Second // both returned: the join has certainly been signalled, wait for the watcher to notice
+		} else {
+			for _, c := range w.pending {
+				if c.op == "Close" {
+					grace = 3 * time.Millisecond
+				}
+			}
+		}
+		select {
+		case <-w.joined:
+			join = true
+		case <-time.After(grace):
+		}
+	}
+	return map[string]any{"join": join, "du": du, "dd": dd, "fu": fu, "fd": fd, "ku": ku, "kd": kd,
 		"bu": atomic.LoadInt64(&w.stats.BytesUp), "bd": atomic.LoadInt64(&w.stats.BytesDown),
 		"cc": cc, "cv": cv, "xu": w.exited["up"], "xd": w.exited["down"],
 		"ses": atomic.LoadInt64(&w.ps.sessionsProxying), "ret": w.ret}
@@ -992,8 +1016,12 @@ type vrlSyncBuf struct {
 	b  bytes.Buffer
 }
 
-func (s *vrlSyncBuf) Write(p []byte) (int, error) { s.mu.Lock(); defer s.mu.Unlock(); return s.b.Write(p) }
-func (s *vrlSyncBuf) String() string               { s.mu.Lock(); defer s.mu.Unlock(); return s.b.String() }
+func (s *vrlSyncBuf) Write(p []byte) (int, error) {
+	s.mu.Lock()
+	defer s.mu.Unlock()
+	return s.b.Write(p)
+}
+func (s *vrlSyncBuf) String() string { s.mu.Lock(); defer s.mu.Unlock(); return s.b.String() }
 
 func vrlMkReg(covert string, phantom net.IP) *DecoyRegistration {
 	secret := vSecret("s1")
@@ -1068,7 +1096,7 @@ func vrlRunProxy(pc vrlProxyCase) (events []vrlEv, fin map[string]any, bad []str
 		}
 	}
 	var sum struct {
-		BytesUp, BytesDown                        int64
+		BytesUp, BytesDown                          int64
 		CovertDialErr, CovertConnErr, ClientConnErr string
 	}
 	m := vrlProxyClosedRe.FindStringSubmatch(lbuf.String())
